@@ -46,10 +46,13 @@ def run(ck, ctx):
     from . import bounds as _bounds
     ck.rule("R14.10", _bounds.TEXT % "the WAL, segment and checkpoint decoders")
     ck.nd("round-trip equality for all values (derive-generated serde and bincode/serde_json are trusted); detection probability of CRC32")
+    from . import c12 as _c12w
+    ck.rule("R14.12", _c12w.WRITER_TEXT + " (shared with C12 R12.8)")
     for cfg in ctx.configs:
         prog = ctx.prog(cfg)
         ck.configs.append(cfg)
         ck.fn_count += len(prog.fns)
+        _c12w.writer_rule(ck, prog, cfg, "R14.12")
         from . import c10
         c10.r106(ck, prog, cfg, "R14.7")
         _layouts(ck, prog, cfg)
